@@ -220,6 +220,10 @@ def summary(pr):
         d["volume"] = _safe(lambda: cv(c.volume) if c.volume_is_set else None)
         d["universe"] = _safe(lambda: c.universe.number if c.universe else None)
         d["fill"] = _safe(lambda: (c.fill.universe.number if c.fill.universe else None))
+        d["fill_transform"] = _safe(lambda: None if c.fill.transform is None else
+                                    [("hidden" if c.fill.hidden_transform else c.fill.transform.number),
+                                     cv(c.fill.transform.displacement_vector), cv(c.fill.transform.rotation_matrix),
+                                     bool(c.fill.transform.is_in_degrees)])
         d["params"] = _safe(lambda: tree_values(c._tree["parameters"]) if "parameters" in c._tree.nodes else [])
         cells.append(d)
     out["cells"] = cells
@@ -282,12 +286,17 @@ def diff_summaries(a, b, path=""):
     return out[:6]
 
 
-def read_summary(text, width, name="lay.i", files=None):
-    """-> ('ok', summary) | ('err', exception class name); `files`: {name: text} written next to the main file"""
+def read_summary(text, width, name="lay.i", files=None, replace=True):
+    """-> ('ok', summary) | ('err', exception class name); `files`: {name: text} written next to the main file;
+    replace: montepy.read_input's argument (False: the file is opened as ASCII text, _clean_line is not used)"""
+    import montepy
     for fn, ft in (files or {}).items():
         mp.write_text(fn, ft)
     try:
-        pr = mp.read_problem(text, name=name, version=VERS[width])
+        p = mp.write_text(name, text)
+        with warnings.catch_warnings():
+            warnings.simplefilter("ignore")
+            pr = montepy.read_input(p, mcnp_version=VERS[width], replace=replace)
     except Exception as e:
         return ("err", type(e).__name__)
     return ("ok", summary(pr))
@@ -300,7 +309,7 @@ C_LINE = re.compile(r"^ {0,4}[cC]( |$)")
 # line.endswith(" &\n") evaluated on every line): trigger predicates of the known findings decide from these
 UNTIDY = ("amp_trailing_blank", "amp_last_column", "amp_then_comment", "comment_ends_amp", "dollar_ends_amp")
 SAFE = ("amp_low_indent", "trailing_blanks", "indented_comment", "crlf", "message_added", "message_removed",
-        "comment_trailing_blanks", "tail_text", "tabify", "card_indent", "comment_case", "amp_at_limit")
+        "comment_trailing_blanks", "tail_text", "tabify", "card_indent", "comment_case", "amp_at_limit", "tab_indent")
 FEATURES = SAFE + UNTIDY
 
 
@@ -382,6 +391,15 @@ def relayout(rng, text, allow=FEATURES, width=128):
                 and "#" not in (" " * k4 + l)[:5] and xlen(" " * k4 + l) < width:
             l = " " * k4 + l
             feats.add("card_indent")
+        if (not is_c) and (not is_blank) and not starts_card and "tab_indent" in allow and r[14] < 0.3 \
+                and l.startswith("     ") and not prev_amp:
+            # a continuation line indented by a tab (8 columns) and what is left of its blanks
+            body = l.lstrip(" ")
+            k = len(l) - len(body)
+            cand = "\t" + " " * max(0, k - 8) + body
+            if body and "\t" not in body and xlen(cand) < width:
+                l = cand
+                feats.add("tab_indent")
         if (not is_c) and (not is_blank) and "tabify" in allow and r[4] < 0.25 \
                 and not re.match(r"\s*[fs]c\d", l, re.I):      # FCn / SCn are free text: blank runs are content
             l2 = _tabify(l, width, r[5:9])
